@@ -51,6 +51,35 @@ theorem eM_truthyE (c : ECtx W HS) (hg : HostGood c.host c.Good c.WInv) (hobs : 
 theorem coreT_of_assign_attr (b a : String) (h : isUser b = true) : coreT (.attr (.name b) a) = true := by
   simp [coreT, coreE, simpleE, h]
 
+theorem lookup_some (env : Env W HS) (x : String) (st : St W HS) (o : Val) (h : lookupV env st x = some o) :
+    lookup env x st = (.ok o, st) := by
+  unfold lookup; simp only [h]
+
+theorem lookup_none (env : Env W HS) (x : String) (st : St W HS) (h : lookupV env st x = none) :
+    lookup env x st = (.err (env.host.nameError x), st) := by
+  unfold lookup; simp only [h]
+
+/-- reading a variable again after a computation that does not touch the variables gives the same -/
+theorem lookup_again {α β} (env : Env W HS) (x : String) (m : M W HS α) (hm : LocPres m) (F : Val → α → M W HS β) :
+    (lookup env x >>= fun o => m >>= fun k => F o k)
+      = (lookup env x >>= fun _ => m >>= fun k => lookup env x >>= fun o => F o k) := by
+  funext st
+  rw [bind_def_M, bind_def_M]
+  cases hl : lookupV env st x with
+  | none => rw [lookup_none env x st hl]
+  | some o =>
+    rw [lookup_some env x st o hl]
+    simp only
+    rw [bind_def_M, bind_def_M]
+    have h1 := hm st
+    rcases hms : m st with ⟨r, st1⟩
+    rw [hms] at h1
+    cases r with
+    | err e => rfl
+    | ok k =>
+      simp only
+      rw [bind_def_M, lookup_some env x st1 o (by rw [lookupV_same_loc env st st1 h1 x]; exact hl)]
+
 /-- one assignment target (of an assignment statement, or annotated) -/
 theorem erase_assignT (c : ECtx W HS) (hg : HostGood c.host c.Good c.WInv) (hobs : Observer c.host) (t : Target)
     (ht : coreAssignT t = true) (hl : ∀ x ∈ t.names ++ t.stores, c.local x) (ann : Option Ann) (v : Val)
@@ -89,12 +118,71 @@ theorem erase_assignT (c : ECtx W HS) (hg : HostGood c.host c.Good c.WInv) (hobs
       rw [assignT_attr_other c.envR e a ann v hn, assignT_attr_other c.envP e a ann v hn]
       exact eraseT c hg hobs (.attr e a) ht' hl v hv
   | sub e i =>
-    have hn : ∀ b, e ≠ .name b := by
-      intro b hb; subst hb; simp [coreAssignT] at ht
-    have ht' : coreT (.sub e i) = true := by
-      cases e <;> first | (exfalso; exact hn _ rfl) | simpa [coreAssignT, coreT] using ht
-    rw [assignT_sub_other c.envR e i ann v hn, assignT_sub_other c.envP e i ann v hn]
-    exact eraseT c hg hobs (.sub e i) ht' hl v hv
+    by_cases hname : ∃ b, e = .name b
+    · obtain ⟨b, rfl⟩ := hname
+      simp only [coreAssignT, Bool.and_eq_true] at ht
+      obtain ⟨⟨hb, hci⟩, hsi⟩ := ht
+      have hst : ∀ x ∈ i.stores, c.local x := fun x hx =>
+        hl x (by simp [Target.names, Target.stores, Expr.stores, hx])
+      have hP : assignT c.envP (.sub (.name b) i) ann v
+          = (lookup c.envP b >>= fun o => evalE c.envP i >>= fun k => liftW (c.envP.host.setitem o k v)) := by
+        simp [assignT, hookOn, ECtx.envP, storeT, evalE]
+      have hookP : ∀ k, hook c.envP b ann v true (keyVal "index" k) = pure v := by
+        intro k; unfold hook; simp [ECtx.envP]
+      by_cases hon : hookOn c.envR b (annTags ann) true = true
+      · have tail : ∀ k, c.Good k → EM c (fun _ => True)
+            (hook c.envR b ann v true (keyVal "index" k) >>= fun r => lookup c.envR b >>= fun o =>
+              liftW (c.host.setitem o k r))
+            (lookup c.envP b >>= fun o => liftW (c.host.setitem o k v)) := by
+          intro k hk
+          have := eM_bind c (eM_hook c hg hobs b ann v true (keyVal "index" k) hv) fun r hr =>
+            eM_bind c (eM_lookup c hg b hb) fun o ho =>
+              eM_liftW c (fun _ => True) (c.host.setitem o k r) fun w hw => hg.setitem o k r w ho hk hr hw
+          rw [hookP k, pure_bind_M] at this
+          exact this
+        cases hc : isConst i with
+        | true =>
+          have hgk : c.Good (constVal i) := by
+            cases i <;> first | (simp [isConst] at hc; done) | exact hg.int _ | exact hg.str _ | exact hg.noneV | exact hg.bool _ | exact hg.const _
+          rw [hP]
+          simp only [assignT, hon, if_true, hc, Bool.not_true, Bool.false_eq_true, if_false, pure_bind_M,
+            eval_const _ i hc]
+          exact tail _ hgk
+        | false =>
+          rw [hP, lookup_again c.envP b (evalE c.envP i) (locPres_evalE c.envP i hsi)]
+          simp only [assignT, hon, if_true, hc, Bool.not_false, bind_assoc_M, pure_bind_M]
+          exact eM_bind c (eM_lookup c hg b hb) fun _ _ =>
+            eM_bind c (eraseE c hg hobs i hci hst) fun k hk => tail k hk
+      · have hR : assignT c.envR (.sub (.name b) i) ann v = storeT c.envR (.sub (.name b) i) v := by
+          simp only [assignT, hon, Bool.false_eq_true, if_false]
+        have hP2 : assignT c.envP (.sub (.name b) i) ann v = storeT c.envP (.sub (.name b) i) v := by
+          simp [assignT, hookOn, ECtx.envP]
+        rw [hR, hP2]
+        exact eraseT c hg hobs (.sub (.name b) i) (by simp [coreT, coreE, simpleE, hb, hci, hsi]) hl v hv
+    · have hn : ∀ b, e ≠ .name b := fun b hb => hname ⟨b, hb⟩
+      have ht' : coreT (.sub e i) = true := by
+        cases e <;> first | (exfalso; exact hn _ rfl) | simpa [coreAssignT, coreT] using ht
+      rw [assignT_sub_other c.envR e i ann v hn, assignT_sub_other c.envP e i ann v hn]
+      exact eraseT c hg hobs (.sub e i) ht' hl v hv
+
+/-- the targets of a (chained) assignment, in turn -/
+theorem erase_assignTs (c : ECtx W HS) (hg : HostGood c.host c.Good c.WInv) (hobs : Observer c.host) :
+    (ts : List Target) → coreAssignTL ts = true → (∀ x ∈ Target.namesL ts ++ Target.storesL ts, c.local x) →
+    ∀ v, c.Good v → EM c (fun _ => True) (assignTs c.envR v ts) (assignTs c.envP v ts)
+  | [], _, _, v, _ => by simp only [assignTs]; exact eM_pure c _ () trivial
+  | t :: ts, h, hl, v, hv => by
+    simp only [coreAssignTL, Bool.and_eq_true] at h
+    simp only [assignTs]
+    refine eM_bind c (erase_assignT c hg hobs t h.1 (fun x hx => hl x (by
+      simp only [Target.namesL, Target.storesL, List.mem_append] at hx ⊢
+      rcases hx with hx | hx
+      · exact Or.inl (Or.inl hx)
+      · exact Or.inr (Or.inl hx))) none v hv) fun _ _ => ?_
+    exact erase_assignTs c hg hobs ts h.2 (fun x hx => hl x (by
+      simp only [Target.namesL, Target.storesL, List.mem_append] at hx ⊢
+      rcases hx with hx | hx
+      · exact Or.inl (Or.inr hx)
+      · exact Or.inr (Or.inr hx))) v hv
 
 /-- the body of an `except … as name` clause -/
 theorem eX_handlerBody (c : ECtx W HS) (hg : HostGood c.host c.Good c.WInv) (hobs : Observer c.host) (e : Val)
@@ -263,15 +351,11 @@ theorem eraseS (c : ECtx W HS) (hg : HostGood c.host c.Good c.WInv) (hobs : Obse
     EX c (execS c.envR c.fuel s) (execS c.envP c.fuel s)
   | .assign ts v, h, _, hs => by
     simp only [coreS, Bool.and_eq_true] at h
-    match ts, h, hs with
-    | [t], h, hs =>
-      simp only [Stmt.assigned, Target.namesL, Target.storesL, List.append_nil, List.mem_append] at hs
-      simp only [execS, assignTs_single]
-      exact eX_stepM c (eraseE c hg hobs v h.2 (fun x hx => hs x (Or.inr hx))) fun u hu =>
-        eX_stepM c (erase_assignT c hg hobs t h.1 (fun x hx => hs x (Or.inl (by simpa using hx))) none u hu)
-          fun _ _ => eX_done c _ trivial
-    | [], h, _ => simp at h
-    | _ :: _ :: _, h, _ => simp at h
+    simp only [Stmt.assigned, List.mem_append] at hs
+    simp only [execS]
+    exact eX_stepM c (eraseE c hg hobs v h.2 (fun x hx => hs x (Or.inr hx))) fun u hu =>
+      eX_stepM c (erase_assignTs c hg hobs ts (by simpa using h.1.2)
+        (fun x hx => hs x (Or.inl (by simpa [List.mem_append] using hx))) u hu) fun _ _ => eX_done c _ trivial
   | .augassign t op v, h, _, hs => by
     simp only [coreS, Bool.and_eq_true] at h
     simp only [Stmt.assigned, List.mem_append] at hs
